@@ -23,7 +23,7 @@ ASSUMPTIONS = [
     'the harness catches it and only requires that the target keeps a valid value and mirrors again once the value is valid',
     'sync watchers are recognised structurally (bound method _sync_refs whose owner namespace belongs to the target)',
 ]
-REQUIRED = {'mirror_checks': 8000, 'source_updates': 2000, 'overrides': 300, 'relinks': 300, 'nested_links': 200, 'leak_checks': 3000}
+REQUIRED = {'mirror_checks': 8000, 'source_updates': 2000, 'overrides': 300, 'relinks': 300, 'nested_links': 200, 'leak_checks': 3000, 'triggers': 100}
 
 _st = {}
 _n = [0]
@@ -337,6 +337,13 @@ def run_case(idx, rng, P, rep):
                 plain[ti][tp] = saved_plain
             else:
                 plain[ti][tp] = before
+        elif c < 0.95:
+            # re-announcing the current value is not an assignment: a link must survive it
+            tp = rng.choice(['x', 'y', 'z', 'l'])
+            steps.append('trigger-linked' if tp in links[ti] else 'trigger')
+            trace.append((steps[-1], ti, tp))
+            rep.count('triggers')
+            t.param.trigger(tp)
         else:
             tp = rng.choice(['x', 'y'])
             steps.append('read')
